@@ -159,7 +159,7 @@ func (c *Ctx) edgeRules() []EdgeRule {
 			})...)
 		}
 		esites = split
-		for _, es := range esites {
+		mk := func(es edgeSite) EdgeRule {
 			call, a := es.call, es.a
 			ef := call.Parent()
 			e := EdgeRule{Fn: ef, Call: call, Pos: es.pos, C: a[1], P: a[2], G: a[0], Rel: map[string]string{}, Inner: es.inner}
@@ -193,6 +193,57 @@ func (c *Ctx) edgeRules() []EdgeRule {
 				c.classify(&e, kinds)
 			}
 			c.vertexEnv = nil
+			return e
+		}
+		for _, es := range esites {
+			e := mk(es)
+			// a site reached over several guarded ways (`if a.Subtype != "" && b.Subtype != a.Subtype { continue }` before it:
+			// either the first test failed, or the second did) whose joint guard fits no class: one site per incoming way,
+			// accepted when every way is a class of its own
+			if strings.HasPrefix(e.Class, "other:") && es.env == nil && kerr == nil {
+				if blk := es.call.Block(); len(blk.Preds) >= 2 && len(blk.Preds) <= 3 {
+					var alts []EdgeRule
+					all := true
+					for i, pr := range blk.Preds {
+						iff, isIf := pr.Instrs[len(pr.Instrs)-1].(*ssa.If)
+						if !isIf || pr == blk {
+							all = false
+							break
+						}
+						ls := append([]core.Lit{}, core.Lits(core.Guards(pr))...)
+						ls = append(ls, core.LitOf(iff.Cond, pr.Succs[0] == blk))
+						e2 := mk(edgeSite{es.call, es.a, ls, fmt.Sprintf("%s (way %d of %d)", p.InstrPos(es.call), i+1, len(blk.Preds)), es.inner, nil})
+						if strings.HasPrefix(e2.Class, "other:") || e2.Class == "" {
+							all = false
+							break
+						}
+						// the classes that join a side without subtype to any subtype of the other side (G7, G8) exclude the
+						// pair without any subtype, which belongs to the exact class with another weight: a way counts as one
+						// of them only when it knows the other side's subtype to be non-empty
+						nonEmpty := func(path string) bool {
+							for _, l := range ls {
+								if l.Kind == "cmp" && l.Op == token.EQL && !l.Pol {
+									for _, pr := range [][2]ssa.Value{{l.X, l.Y}, {l.Y, l.X}} {
+										if s, isS := core.ConstString(pr[1]); isS && s == "" && core.Path(pr[0]) == path {
+											return true
+										}
+									}
+								}
+							}
+							return false
+						}
+						if (e2.Class == "G7" && !nonEmpty(e2.PF["Subtype"])) || (e2.Class == "G8" && !nonEmpty(e2.CF["Subtype"])) {
+							all = false
+							break
+						}
+						alts = append(alts, e2)
+					}
+					if all && len(alts) > 1 {
+						out = append(out, alts...)
+						continue
+					}
+				}
+			}
 			out = append(out, e)
 		}
 	}
@@ -429,12 +480,29 @@ func (c *Ctx) describeVertex(v ssa.Value, lits []core.Lit) (kinds []string, fiel
 	x := core.Strip(v)
 	// look through g.Add(x) / g.AddOverwrite(x), parameters bound for the call site being expanded, and variables
 	// captured by a local function literal
+	// a private constructor step (`typedOutput(g, t, st)` returning `g.Add(&typedOutputVertex{Type: t, Subtype: st})`):
+	// the vertex it builds, its parameters read as the arguments of this call
+	var stepEnv map[*ssa.Parameter]ssa.Value
 	for i := 0; i < 8; i++ {
 		if call, ok := x.(*ssa.Call); ok {
 			n := core.CalleeName(call.Common())
 			if n == core.GAdd || n == core.GAddOverwrite {
 				x = core.Strip(call.Common().Args[1])
 				continue
+			}
+			if h := call.Common().StaticCallee(); h != nil && stepEnv == nil && !call.Common().IsInvoke() && p.PrivateHelper(h) && len(h.Blocks) == 1 {
+				if rs := core.Returns(h); len(rs) == 1 && len(rs[0].Results) == 1 {
+					if _, isAlloc := peelAdd(rs[0].Results[0]).(*ssa.Alloc); isAlloc {
+						stepEnv = map[*ssa.Parameter]ssa.Value{}
+						for j, q := range h.Params {
+							if j < len(call.Common().Args) {
+								stepEnv[q] = call.Common().Args[j]
+							}
+						}
+						x = core.Strip(rs[0].Results[0])
+						continue
+					}
+				}
 			}
 		}
 		if prm, ok := x.(*ssa.Parameter); ok {
@@ -465,6 +533,10 @@ func (c *Ctx) describeVertex(v ssa.Value, lits []core.Lit) (kinds []string, fiel
 		for _, n := range []string{"Name", "Type", "Subtype"} {
 			fields[n] = emptyStr
 		}
+		saved := core.PathEnv
+		if stepEnv != nil {
+			core.PathEnv = stepEnv
+		}
 		for _, ref := range *al.Referrers() {
 			fa, ok := ref.(*ssa.FieldAddr)
 			if !ok {
@@ -477,6 +549,7 @@ func (c *Ctx) describeVertex(v ssa.Value, lits []core.Lit) (kinds []string, fiel
 				}
 			}
 		}
+		core.PathEnv = saved
 		return
 	}
 	// an interface-typed value narrowed by a dominating successful type assertion
